@@ -577,6 +577,7 @@ pub fn run_baton(trace: &BatonTrace, prop: &str, cold_process: bool) -> BatonOut
     out_trace.schedule_cold = p1.schedule.clone();
     counters.add("yields", p1.yields);
     counters.add("thread_switches", p1.switches);
+    counters.add("fault.scheduler_switched_thread_at_yield_point", p1.switches);
     for (k, v) in &p1.sites {
         counters.add(&format!("site.{k}"), *v);
     }
@@ -789,6 +790,7 @@ pub fn run_baton(trace: &BatonTrace, prop: &str, cold_process: bool) -> BatonOut
     out_trace.schedule_shared = p2.schedule.clone();
     counters.add("yields", p2.yields);
     counters.add("thread_switches", p2.switches);
+    counters.add("fault.scheduler_switched_thread_at_yield_point", p2.switches);
     for (k, v) in &p2.sites {
         counters.add(&format!("site.{k}"), *v);
     }
@@ -1119,7 +1121,8 @@ pub fn run_clock(scratch: &std::path::Path, release_ms: u64, kind: u8, via_rln: 
     out.sleeps = sleeps.clone();
     if !sleeps.is_empty() {
         out.counters.inc("reach.retry_loop_entered");
-        out.counters.add("fault.lock_held_ms", release_ms);
+        out.counters.inc("fault.storage_lock_held_by_previous_owner");
+        out.counters.add("lock_held_simulated_ms", release_ms.min(100_000));
     }
     out.counters.add("retry_sleeps", sleeps.len() as u64);
     match r {
